@@ -149,7 +149,7 @@ def end_to_end(ctx, binary):
     if ctx.quick:
         pairs = [p for p in pairs if p[1] != "compact" or p[0] in ("boundary", "crossface", "huge")]
     n = ctx.pick(len(pairs), 240)
-    nq = ctx.pick(32, 48)
+    nq = ctx.pick(44, 64)
     cases = []
     for i in range(n):
         c, w = pairs[i % len(pairs)]
